@@ -180,6 +180,7 @@ class CFront(object):
             if k not in fr.env:
                 fr.env[k] = v
         self.env = fr.env
+        it.add_axioms(c.ghost.get("late_axioms") or [])
         for i, e in enumerate(c.ensures):
             it.oblige("ensures[%d]:%s" % (i, e[:80]), it.eval_clause(e, {"result": result}), kind="ensures")
         it.frame_obligations(c, entry_heap)
@@ -506,20 +507,60 @@ class CFront(object):
                 it.oblige("call:%s/requires[%d]:%s" % (name, i, r[:60]), it.eval_clause(r), kind="call-pre")
             old_heap = dict(ctx.heap)
             it.havoc_modifies(c.modifies)
+            old_wm = ctx.bump_wm_unknown()
             rct = ctype_of(fdef.decl.type.type)
             result = None
             if rct.kind != "void":
                 result = it.fresh_result_value(ty_of_ctype(rct))
             it.old_heap_stack.append(old_heap)
+            it.fresh_base_stack.append(old_wm)
             fr.entry_env = dict(env)
             try:
                 for e in c.ensures:
                     ctx.assume(it.eval_clause(e, {"result": result}))
             finally:
                 it.old_heap_stack.pop()
+                it.fresh_base_stack.pop()
             return result, rct
         finally:
             it.frames.pop()
+
+    def call_from_python(self, relpath, fname, pyargs):
+        """A cffi call from Python code: argument conversion (OverflowError for ints that do not fit ``uint``), then
+        the C function's contract."""
+        from .values import RaiseSig, ExcV
+        it, ctx = self.it, self.ctx
+        ast, funcs, structs, _ = parse_c_file(relpath)
+        if fname not in funcs:
+            raise loader.AnchorError("C function %s not in %s" % (fname, relpath))
+        self.funcs = funcs
+        self.fname = fname
+
+        class _C(object):
+            qualname = relpath + ":"
+            ghost = (it.root_contract.ghost if it.root_contract is not None else {})
+        self.contract = _C()
+        fdef = funcs[fname]
+        params = [p for p in (fdef.decl.type.args.params if fdef.decl.type.args else []) if getattr(p, "name", None)]
+        args = []
+        for p, v in zip(params, pyargs):
+            ct = ctype_of(p.type)
+            if ct.kind == "uint":
+                V = it.Z(v)
+                fits = z3.And(V >= 0, V <= UINT_MAX)
+                d = ctx.branch(fits) if z3.is_expr(V) else (0 <= v <= UINT_MAX)
+                if not d:
+                    raise RaiseSig(ExcV("OverflowError"))
+            if ct.kind == "double":
+                v = ctx.to_float(v)
+            args.append((v, ct))
+        key = "%s:%s" % (relpath, fname)
+        if not any(c.qualname == key for c in REG.contracts.values()):
+            # no contract: a pure function of unknown value (e.g. estimated_size)
+            rct = ctype_of(fdef.decl.type.type)
+            return None if rct.kind == "void" else it.fresh_result_value(ty_of_ctype(rct))
+        r, rct = self.call_c_contract(fname, args)
+        return r
 
     # ------------------------------------------------------------------ assignment
     def assign(self, target, v, vt):
